@@ -6,5 +6,6 @@ CONSTANTS
   Roots = {"tree", "w/tree"}
   ExtFilters = {"none", "go"}
   Tops = {1, 3}
+  Stride = 2
 INVARIANTS C16_RowPerDirectory C16_CellsExact C16_SummaryIsSum C16_AgreesWithBase C16_RunTargetsCurrentDir
            C16_TopSortedTruncated C16_TopJsonExact Emit
